@@ -14,6 +14,17 @@ type Req struct {
 	Kind   string // how it was derived (valid, unbalanced, unknown-field, ...)
 }
 
+// Twins are pairs of documents that differ only in characters a careless cache key might
+// normalise away; the first is valid, the second must get its own verdict.
+var Twins = [][2]Req{
+	{{Kind: "twin-comment-valid", Query: "{ hello # greeting\n}"}, {Kind: "twin-comment-invalid", Query: "{ hello # greeting }"}},
+	{{Kind: "twin-comment2-valid", Query: "{ me { id # x\n name } }"}, {Kind: "twin-comment2-invalid", Query: "{ me { id # x name } }"}},
+	{{Kind: "twin-case-valid", Query: "{ hello }"}, {Kind: "twin-case-invalid", Query: "{ HELLO }"}},
+	{{Kind: "twin-space-valid", Query: "{ me { id name } }"}, {Kind: "twin-space-invalid", Query: "{ me { idname } }"}},
+	{{Kind: "twin-trailing-valid", Query: "{ maybe }"}, {Kind: "twin-trailing-invalid", Query: "{ maybe } }"}},
+	{{Kind: "twin-string-valid", Query: `{ user(id:"a b") { id } }`}, {Kind: "twin-string-invalid", Query: `{ user(id:"a b) { id } }`}},
+}
+
 // Pool returns valid corpus requests and systematically invalidated variants of them.
 func Pool() []Req {
 	var out []Req
